@@ -294,3 +294,19 @@ PROPS["C15"] = dict(
     trusted_base=_RT_TRUSTED + ["modelled, not verified: net/url (escaping of u.String() and parsing back: the tie compares ServeHTTP on the parsed URL with Match on u.Path), goutil.String"],
     assumptions=["values satisfy their variable's regex and contain no brace; the substituted path is already normalised (otherwise K3)"],
 )
+
+PROPS["C17"] = dict(
+    claim=dict(
+        text="PARTIAL. Machine-checked proof (Coq 8.16) of the lexical confinement logic: for every string, path.Clean('/'+s) (modelled as a stack over the '/'-separated elements) is rooted and has no empty, '.' or '..' element (C17_clean_rooted, C17_clean_no_dotdot); hence http.Dir(root).Open(name) names a path below root element by element (C17_dir_confined); StripPrefix removes exactly the prefix (C17_strip_prefix); every value of StaticFiles' file variable ends in '.'+allowed extension, using the declarative regex semantics (C17_ext_filter). The model of path.Clean is compared with Go's on generated strings. The property itself (no bytes from outside the root, extension filter) is decided by a direct oracle on a sandbox tree with files inside the root and secrets beside it (incl. a sibling directory whose name extends the root's name, directories named like allowed files): for StaticDir / StaticFiles / StaticFS / StaticFile every response body is identified with the file it equals.",
+        note="PARTIAL: confinement is enforced by net/http (FileServer, http.Dir, ServeFile's own '..' check) and by the OS; the model re-implements their lexical logic and cannot see symlinks or OS path semantics; the response-level check is exploration (direct oracle), not proof. Trusted: Coq kernel, extraction, driver, harness.",
+        technique="Coq proof of the lexical path logic (clean / join / strip prefix / extension regex) + direct sandbox oracle on the implementation"),
+    n=dict(quick=4000, thorough=80000),
+    consts=[],
+    theorems=["C17_clean_rooted", "C17_clean_no_dotdot", "C17_dir_confined", "C17_strip_prefix", "C17_ext_filter"],
+    rule="case = request path of 0..6 elements drawn from {.., ., empty, file and directory names inside and outside the root, %2e%2e, ..%2f, %2f, backslash, %00, trailing "
+         "dot/space, names extending the root's name} under one of the four static handlers (StaticDir /static, StaticFiles /assets css|js, StaticFS /fs, StaticFile /one); a "
+         "fifth of the cases compare path.Clean with the model. Observed: status and which on-disk file the body equals. Non-trivial = request with dot-dot or "
+         "percent-encoded elements.",
+    trusted_base=["modelled, not verified: path.Clean, http.Dir, http.StripPrefix, http.FileServer, http.ServeFile, the OS file system (sandbox tree created by the harness under the check's work directory)"],
+    assumptions=["no symlinks in the served tree"],
+)
